@@ -39,11 +39,14 @@ LibraryOptions(f) ==
     extern_enums |-> f.external_enums,
     operation_name |-> f.selected_operation ]
 
-QueryNames == {"ops.graphql", "user.query.graphql", "nested/dir/ops.gql"}
+\* "link.graphql": the query path (and the schema path) given on the command line are symbolic links to
+\* files with other names and no extension in another directory; names and placement follow the GIVEN path
+QueryNames == {"ops.graphql", "user.query.graphql", "nested/dir/ops.gql", "link.graphql"}
 \* file name with the last extension replaced by rs
 RsName == ("ops.graphql" :> "ops.rs") @@ ("user.query.graphql" :> "user.query.rs") @@ ("nested/dir/ops.gql" :> "ops.rs")
+          @@ ("link.graphql" :> "link.rs")
 BesideQuery == ("ops.graphql" :> "ops.rs") @@ ("user.query.graphql" :> "user.query.rs") @@
-               ("nested/dir/ops.gql" :> "nested/dir/ops.rs")
+               ("nested/dir/ops.gql" :> "nested/dir/ops.rs") @@ ("link.graphql" :> "link.rs")
 
 \* (an output directory that does not exist is not part of the property: creating it or failing are both fine)
 Placement == {"beside", "outdir"}
